@@ -503,7 +503,7 @@ static inline std::vector<Val> alphabet(Rng& r, const FSpec& f, bool allowNeg = 
 }
 
 // Random table with the forest's default as background.
-static inline Table randomTable(Rng& r, const World& w, const FSpec& f, const std::vector<Val>& alpha, int forceShape = -1) {
+static inline Table randomTable(Rng& r, const World& w, const FSpec& f, const std::vector<Val>& alpha, int forceShape = -1, int forceSub = -1) {
     long n = w.tableSize(f.rel);
     Table t(size_t(n), f.deflt());
     int shape = int(r.below(8)); if (forceShape >= 0) shape = forceShape;
@@ -574,7 +574,7 @@ static inline Table randomTable(Rng& r, const World& w, const FSpec& f, const st
                 Val cv = val();
                 // sub-modes: 0 = pattern with holes and mixed values; 1 = the exact pattern with one value (identity-reduced forests
                 // store it as level-skipping edges); 2 = block diagonal: the value depends on the from-value of one identity variable
-                const int sub = int(r.below(3));
+                int sub = int(r.below(3)); if (forceSub >= 0) sub = forceSub;
                 int bv = 0; for (int v = w.shape.n(); v >= 1; v--) if (idv[size_t(v)]) { bv = v; if (r.chance(1, 2)) break; }
                 if (!bv) { bv = r.range(1, w.shape.n()); idv[size_t(bv)] = true; }
                 std::vector<Val> blockVal(size_t(w.shape.sizes[size_t(bv)])); for (auto& x : blockVal) x = val();
